@@ -92,6 +92,8 @@ def run_job(job):
         for ri, (rlab, pw) in enumerate(regs):
             explicit = (ri % 2 == 1)
             idu, ids, ctx = (b"user@example", b"server.example", b"ctx") if explicit else (None, None, None)
+            if ri % 4 == 2:
+                idu, ids, ctx = b"u" * 256, b"s" * 300, b"c" * 256      # boundary-length parameters must not change the error either
             wseed = proto.H("c02", su, job["seed"], rlab)
             rng = s.rng("r", wseed)
             s.cmd("setup_new", rng=rng, out="S")
